@@ -8,8 +8,9 @@ KNOWN = os.path.join(VERIF, 'known_findings.json')
 
 
 class Check:
-    def __init__(self, prop, tier, seed=0):
+    def __init__(self, prop, tier, seed=0, config='default'):
         self.prop = prop
+        self.config = config
         self.tier = tier
         self.seed = seed
         self.t0 = time.time()
@@ -22,7 +23,8 @@ class Check:
         self.explanation = ''
 
     # ------------------------------------------------------------------ worlds
-    def world(self, config='default'):
+    def world(self, config=None):
+        config = config or self.config
         if config not in self._worlds:
             self._worlds[config] = World(config)
         return self._worlds[config]
